@@ -86,7 +86,7 @@ def make_pool(tier, rng):
     atoms = [None, True, False, 0, 1, -1, "", "a", "b", "é", "ab", "ba"]
     for a in atoms:
         add(lambda n, a=a: [A.Declare(V(n), lit(a))], a)
-    small = [None, True, 0, 1, "a", "b"]
+    small = [None, True, 0, 1, "a", "b"] + ([False, "", "é", -1] if tier == "thorough" else [])
     lists = [[]] + [[x] for x in small] + [[x, y] for x in small[1:] for y in small[1:]]
     objs = [{}] + [{"a": x} for x in [0, 1, "a"]] + [{"b": x} for x in [0, "a"]] + [{"a": x, "b": y} for x in [0, 1] for y in [0, "a", None]]
     if tier == "quick":
@@ -97,7 +97,9 @@ def make_pool(tier, rng):
     nested = [[[]], [[0]], [[0], [1]], {"a": []}, {"a": [0]}, {"a": {"b": 0}}, [{"a": 0}], [{}, []], [[0, 1], "a"], {"a": [0], "b": {"a": 1}},
               [[[]]], [[], []], {"a": {}}, [{"a": []}], [[1], [1]], [None, [None]]]
     if tier == "thorough":
-        nested += [[[[0]]], {"a": {"a": {"a": 0}}}, [[0, [1, [2]]]], {"b": [{"a": [0]}]}, [[], [[]], [[], []]]]
+        nested += [[[], {}], [{"a": [0]}, {"a": [0]}], {"a": [[0]], "b": [[0]]}, [[0, 1], [0, 1]], [[1, 0], [0, 1]], {"b": {"b": {}}}, [{"a": None}], [None, None],
+                   [[None], [None, None]], {"a": "a", "b": "b"}, {"a": "b", "b": "a"}, [["a"], ["b"]], [["a", "b"]], [[True], [False]], [{"": 0}], {"": {"": 0}},
+                   [[[0]]], {"a": {"a": {"a": 0}}}, [[0, [1, [2]]]], {"b": [{"a": [0]}]}, [[], [[]], [[], []]]]
     for v in nested:
         add(lambda n, v=v: [A.Declare(V(n), lit(v))], v)
     # construction variants of the same abstract value
